@@ -21,6 +21,7 @@ I ::= ["i", id] | ["c", n]
 from __future__ import annotations
 
 import itertools
+import json
 
 BOOL_TAGS = {
     "b", "T", "F", "not", "and", "or", "iff", "xor", "imp", "andn", "orn", "fold_and", "fold_or",
@@ -771,6 +772,26 @@ class Builder:
             if how == 2 and all_expr and len(items) >= 1:
                 n = len(items)
                 shape = (2, n // 2) if n % 2 == 0 else (1, n)
+                # which 2-D spelling is a pure function of the node (the scenario stream is not touched):
+                # the whole array, or a strided selection out of a grid padded with a filler cell
+                sub = len(json.dumps(node)) % 4
+                rows, w = shape
+                fill = items[0]
+                if sub == 1:  # even rows, full width: grid[::2]
+                    data = []
+                    for r_ in range(rows):
+                        data += items[r_ * w : (r_ + 1) * w] + [fill] * w
+                    return getattr(A.BoolArray2D(data, (2 * rows, w))[::2], meth)()
+                if sub == 2:  # odd rows, explicit full-width column range: grid[1::2, :]
+                    data = []
+                    for r_ in range(rows):
+                        data += [fill] * w + items[r_ * w : (r_ + 1) * w]
+                    return getattr(A.BoolArray2D(data, (2 * rows, w))[1::2, :], meth)()
+                if sub == 3:  # even columns, all rows: grid[:, ::2]
+                    data = []
+                    for x in items:
+                        data += [x, fill]
+                    return getattr(A.BoolArray2D(data, (rows, 2 * w))[:, ::2], meth)()
                 return getattr(A.BoolArray2D(items, shape), meth)()
             if how == 4 and all_expr and len(items) >= 1:
                 # every second element of a padded array, taken with a stepped slice
